@@ -10,37 +10,31 @@
                           |body| + #{earlier events (OU[ included) with clock >= min body clock} + 2 <= n
                         (the ring keeps n-1 events; the destination must be STRICTLY older).
 
-   Two clauses of the property are false for the faithful model and for the real tool
-   (C16_idempotent_refuted, C16_succeeds_refuted_empty); the check replays both. *)
+   One clause of the property is false for the faithful model and for the real tool
+   (C16_idempotent_refuted); the check replays it.  (A second one, failure on a stream without
+   events, was repaired in /repo commit 4875105; corpus/C16/02 is its regression case.) *)
 From Coq Require Import ZArith List Permutation.
 From OV Require Import Tools.WinsortDefs Proofs.WinsortProofs.
 Import ListNotations.
 Local Open Scope Z_scope.
 
-(* Under the precondition the tool succeeds and its output IS the stable sort by clock.
-   _partial: the stream must have at least one event (see C16_succeeds_refuted_empty). *)
-Theorem C16_sorts_partial : forall n evs,
-  pre n evs -> evs <> [] -> winsort n evs = Some (ssort evs).
+(* Under the precondition the tool succeeds and its output IS the stable sort by clock. *)
+Theorem C16_sorts : forall n evs,
+  pre n evs -> winsort n evs = Some (ssort evs).
 Proof. exact winsort_is_ssort. Qed.
-Print Assumptions C16_sorts_partial.
+Print Assumptions C16_sorts.
 
-Theorem C16_succeeds_partial : forall n evs,
-  pre n evs -> evs <> [] -> exists out, winsort n evs = Some out.
+Theorem C16_succeeds : forall n evs,
+  pre n evs -> exists out, winsort n evs = Some out.
 Proof. exact winsort_succeeds. Qed.
-Print Assumptions C16_succeeds_partial.
-
-(* FULL: forall n evs, pre n evs -> exists out, winsort n evs = Some out.  Refuted by the empty stream. *)
-Theorem C16_succeeds_refuted_empty :
-  exists n evs, pre n evs /\ winsort n evs = None /\ check_mode evs = false.
-Proof. exact winsort_succeeds_refuted_empty. Qed.
-Print Assumptions C16_succeeds_refuted_empty.
+Print Assumptions C16_succeeds.
 
 (* The postconditions, without reference to ssort: same events (bytes are carried by the events),
    non-decreasing clocks, equal-clock order preserved, everything before the earliest out-of-order
    position untouched, same number of events and same total byte size, check mode passes, the
    emulator's loader accepts. *)
 Theorem C16_postconditions : forall n evs out,
-  pre n evs -> evs <> [] -> winsort n evs = Some out ->
+  pre n evs -> winsort n evs = Some out ->
   Permutation evs out /\ sorted out /\ stable evs out /\ prefix_untouched evs out /\
   length out = length evs /\ total_size out = total_size evs /\
   check_mode out = true /\ loader_accepts out = true.
@@ -56,7 +50,7 @@ Print Assumptions C16_spec_determines_output.
 (* Second run.  _partial: it never changes a byte, and it succeeds whenever the sorted stream still
    meets the precondition; but it may FAIL (C16_idempotent_refuted). *)
 Theorem C16_idempotent_partial : forall n evs out,
-  pre n evs -> evs <> [] -> winsort n evs = Some out ->
+  pre n evs -> winsort n evs = Some out ->
   (winsort n out = Some out \/ winsort n out = None) /\ (pre n out -> winsort n out = Some out).
 Proof. exact winsort_idempotent_partial. Qed.
 Print Assumptions C16_idempotent_partial.
@@ -93,12 +87,12 @@ Print Assumptions C16_never_loses_events.
 
 (* a stream without OU[ is left exactly as it is *)
 Theorem C16_no_region_untouched : forall n evs,
-  evs <> [] -> Forall (fun e => starts_unsorted_region e = false) evs -> winsort n evs = Some evs.
+  Forall (fun e => starts_unsorted_region e = false) evs -> winsort n evs = Some evs.
 Proof. exact winsort_no_region. Qed.
 Print Assumptions C16_no_region_untouched.
 
-(* check mode decides sortedness (of a stream with at least one event) *)
-Theorem C16_check_mode_iff : forall l, check_mode l = true <-> (l <> [] /\ sorted l).
+(* check mode passes exactly on sorted streams (the stream without events included) *)
+Theorem C16_check_mode_iff : forall l, check_mode l = true <-> sorted l.
 Proof. exact check_mode_iff. Qed.
 Print Assumptions C16_check_mode_iff.
 
